@@ -106,9 +106,7 @@ def _work(item):
         shape_no = 0
         for shape in sigs.call_shapes(s, surplus_pos=1, surplus_kw=1):
             a0, k0 = sigs.build_call(shape)
-            try:
-                pysig.bind(*a0, **k0)
-            except TypeError:
+            if sigs.interpreter_binding(s, a0, k0) is None:
                 continue
             shape_no += 1
             for compress in compress_opts if tier != "quick" else (compress_opts[shape_no % len(compress_opts)],):
@@ -174,6 +172,38 @@ def _work(item):
                                     kind, sigs.sig_label(s), slot, values[j], got, exp, pas, compress)
                             bad(key, msg, dict(rp, value_index=j, pas=pas))
                     nontrivial += len(values)
+        # cross-shape history: every accepted call shape of this signature with ONE common value in every slot, issued
+        # one after the other on one cache directory (two shapes that Python binds differently must not share an
+        # entry: e.g. f(a=7) -> a=default, **{'a': 7} versus f(7, a=7))
+        loc = os.path.join(root, "x")
+        shutil.rmtree(loc, ignore_errors=True)
+        M._FUNCTION_HASHES.clear()
+        mem = joblib.Memory(loc, verbose=0)
+        cf = mem.cache(fn)
+        seen_exp = {}
+        for shape in sigs.call_shapes(s, surplus_pos=1, surplus_kw=1):
+            npos, kws = shape
+            args, kwargs = tuple(7 for _ in range(npos)), {k: 7 for k in kws}
+            if sigs.interpreter_binding(s, args, kwargs) is None:
+                continue
+            exp = call_plain(kind, fn, args, dict(kwargs))
+            for pas in (0, 1):
+                n += 1
+                try:
+                    with core.time_limit(60):
+                        got = call_cached(kind, cf, args, dict(kwargs))
+                except Exception as e:  # noqa
+                    got = ("EXC", type(e).__name__, str(e)[:150])
+                if got != exp:
+                    rp = {"kind": kind, "sig_index": idx, "signature": sigs.sig_label(s), "shape": [npos, list(kws)], "slot": None,
+                          "compress": False, "n_params": _N, "cross_shape": True}
+                    prev = seen_exp.get(repr(got))
+                    bad("cross-shape|%s|%s" % ("collision" if prev else "wrong-value" if not (isinstance(got, tuple) and got[:1] == ("EXC",)) else "raises:" + got[1], kind),
+                        "%s def f%s: after the calls %s the call with %d positional(s) and keywords %s (all values 7) returned %r instead of %r%s" % (
+                            kind, sigs.sig_label(s), sorted(seen_exp.values()), npos, list(kws), got, exp,
+                            " - the value of the earlier call shape %s" % prev if prev else ""), rp)
+            seen_exp[repr(exp)] = "npos=%d kw=%s" % (npos, ",".join(kws))
+            nontrivial += 1
     shutil.rmtree(root, ignore_errors=True)
     return {"n": n, "nontrivial": nontrivial, "viol": list(viols.values())}
 
